@@ -94,7 +94,7 @@ static void script(void) {
   }
   p_free(path);
 
-  int delivered = 0;
+  int delivered = 0, prev_afail = 0, prev_index = -1, continued = 0;
   for (int i = 0; i < NENT + 2; i++) {
     PError *perr = NULL;
     if (i == NENT + 1) VASSERT(p_dir_rewind(d, NULL) == TRUE, "rewind succeeds");
@@ -118,6 +118,8 @@ static void script(void) {
     } else {
       delivered++;
       VASSERT(vm_dir_last_index >= 0 && c18_streq(e->name, names[vm_dir_last_index]), "entry carries the name readdir delivered");
+      /* the call after one that failed for lack of memory continues the enumeration with the following entry */
+      if (prev_afail && i != NENT + 1) { VASSERT(vm_dir_last_index == prev_index + 1, "enumeration continues after a call that failed for lack of memory"); continued = 1; }
       VASSERT(e->type == P_DIR_ENTRY_TYPE_DIR || e->type == P_DIR_ENTRY_TYPE_FILE || e->type == P_DIR_ENTRY_TYPE_OTHER, "valid type");
       if (afail || rfail) VASSERT(e->type == P_DIR_ENTRY_TYPE_OTHER, "degraded entry (no stat) has type OTHER");
       VASSERT(perr == NULL, "no error report with a delivered entry");
@@ -125,6 +127,7 @@ static void script(void) {
     }
     p_error_free(perr);
     VASSERT(vm_dir_open == 1, "stream stays open");
+    prev_afail = afail && e == NULL; prev_index = vm_dir_last_index;
   }
 
   /* directory creation / removal: no allocation unless an error is reported */
@@ -141,6 +144,11 @@ static void script(void) {
   p_error_free(cerr);
 
   finish(d, err, 4 + 3 * (NENT + 1));
+#if !defined(KF_DEMO) && !defined(NOFAIL) && ENV_KMAX == 0
+  if (continued) VWITNESS("a call failed for lack of memory and the next one delivered the following entry");
+#else
+  (void) continued;
+#endif
 #if !defined(KF_DEMO) && !defined(ENV_FIRST)
   if (delivered == NENT + 1) VWITNESS("all entries delivered, and the first one again after rewind");
 #endif
